@@ -400,3 +400,314 @@ Proof.
   - destruct e; intros [].
   - intros [].
 Qed.
+
+(** a failed header never ends in [Ok] *)
+Lemma scan_bytes_no_header G bytes is r : scan_bytes G bytes = (None, is, r) -> is = [] /\ r <> Ok tt.
+Proof.
+  unfold scan_bytes. destruct (parse_header (mkdec bytes)) as [[h d1]|e|p].
+  - destruct (scan G (S (length bytes)) [] 0 d1) as [is' r']. discriminate.
+  - intros H. inversion H. split; [reflexivity|discriminate].
+  - intros H. inversion H. split; [reflexivity|discriminate].
+Qed.
+
+Lemma scan_bytes_not_complete G bytes oh is : scan_bytes G bytes <> (oh, is, Er PComplete).
+Proof.
+  unfold scan_bytes. destruct (parse_header (mkdec bytes)) as [[h d1]|e|p] eqn:PH.
+  - pose proof (scan_not_complete G (S (length bytes)) [] 0 d1) as K.
+    destruct (scan G (S (length bytes)) [] 0 d1) as [is' r']. cbn [snd] in K.
+    intros H. inversion H. subst. apply K. reflexivity.
+  - intros H. inversion H. subst. unfold parse_header in PH.
+    destruct (words 5 (mkdec bytes)) as [[ws|e'] d1]; [|discriminate].
+    destruct ws as [|w0 [|w1 [|w2 [|w3 [|w4 [|w5 r]]]]]]; try discriminate PH.
+    destruct (N.eqb w0 MAGIC); [discriminate|]. destruct (N.eqb w0 MAGIC_SWAPPED); discriminate.
+  - discriminate.
+Qed.
+
+(** acceptance needs a complete stream (generic) *)
+Lemma load_ok_complete Op preds arms fin G bytes :
+  snd (load_bytes G Op preds arms fin bytes) = Ok tt ->
+  exists h is, scan_bytes G bytes = (Some h, is, Ok tt).
+Proof.
+  rewrite load_bytes_is_spec. unfold load_spec.
+  destruct (scan_bytes G bytes) as [[[h|] is] r] eqn:SB.
+  - unfold loop_spec. destruct (feed_st Op preds arms linit is) as [s o].
+    destruct o; cbn [snd]; try discriminate.
+    destruct r as [[]|e|p]; try discriminate. intros _. exists h, is. reflexivity.
+  - cbn [snd]. intros ->. apply scan_bytes_no_header in SB as [_ K]. contradiction.
+Qed.
+
+(** ====================================================================== *)
+(** * F2: the linked data of this run                                        *)
+(** ====================================================================== *)
+
+Notation RG := Linked.G.
+
+(** finite check: every opcode of the instruction table is a declared [Op] *)
+Lemma table_opcodes_declared : forallb (fun g => memN (g_opcode g) opcodes) core_table = true.
+Proof. vm_cast_no_check (eq_refl true). Qed.
+
+Lemma scan_wellop_loop fuel t idx d : wellop (fst (scan RG fuel t idx d)).
+Proof.
+  intros i Hi. apply scan_table_opcodes in Hi as (g & Hg & ->).
+  pose proof table_opcodes_declared as K. rewrite forallb_forall in K.
+  apply memN_In. apply K. exact Hg.
+Qed.
+
+(** every instruction the parser hands to the loader has a declared opcode *)
+Theorem scan_wellop bytes oh is r : scan_bytes RG bytes = (oh, is, r) -> wellop is.
+Proof.
+  unfold scan_bytes. destruct (parse_header (mkdec bytes)) as [[h d1]|e|p].
+  - pose proof (scan_wellop_loop (S (length bytes)) [] 0 d1) as W.
+    destruct (scan RG (S (length bytes)) [] 0 d1) as [is' r']. cbn [fst] in W.
+    intros H. inversion H. subst. exact W.
+  - intros H. inversion H. intros i [].
+  - intros H. inversion H. intros i [].
+Qed.
+
+Definition real_feed (is : list inst) : lres := feed op_enum preds loader_arms linit is.
+
+Lemma real_load_feed is :
+  real_load is = match real_feed is with
+                 | LCont s => match finalize loader_finalize_checks s with Some e => LErr e | None => LCont s end
+                 | other => other
+                 end.
+Proof. reflexivity. Qed.
+
+Lemma real_feed_is_spec is : wellop is -> real_feed is = spec_feed linit (tagged is).
+Proof. intros W. apply (feed_is_spec op_enum preds loader_arms class_of opcodes arms_agree_prop is linit W). Qed.
+
+Lemma real_feed_no_panic is : wellop is -> real_feed is <> LPanic.
+Proof.
+  intros W F. apply (real_no_panic is W). rewrite real_load_feed, F. reflexivity.
+Qed.
+
+Lemma wellop_app_l a b : wellop (a ++ b) -> wellop a.
+Proof. intros W i Hi. apply W. apply in_or_app. left. exact Hi. Qed.
+
+(** the loader under the parser never panics, and its `match` never falls
+    through: for ALL byte strings *)
+Theorem load_case_never_panics bytes :
+  lw_panic (fst (load_case bytes)) = false /\ forall p, snd (load_case bytes) <> Panic p.
+Proof.
+  split.
+  - destruct (lw_panic (fst (load_case bytes))) eqn:E; [exfalso|reflexivity].
+    unfold load_case in E. rewrite load_bytes_is_spec in E.
+    apply load_spec_panic_flag in E as (h & is & r & SB & F).
+    apply (real_feed_no_panic is); [eapply scan_wellop; exact SB|exact F].
+  - intros p. unfold load_case, load_bytes. apply real_parser_no_panic.
+Qed.
+
+(** ====================================================================== *)
+(** * F3: acceptance                                                         *)
+(** ====================================================================== *)
+
+Lemma real_complete_result bytes h is :
+  scan_bytes RG bytes = (Some h, is, Ok tt) ->
+  snd (load_case bytes) =
+  match real_load is with
+  | LCont _ => Ok tt
+  | LErr e => Er (PConsumerError (lerr_code e))
+  | LPanic => Er (PConsumerError 999)
+  end.
+Proof. intros SB. unfold load_case, real_load. apply (load_complete_insts _ _ _ _ _ _ _ _ SB). Qed.
+
+Theorem accepted_iff bytes :
+  snd (load_case bytes) = Ok tt <->
+  exists h is, scan_bytes RG bytes = (Some h, is, Ok tt) /\ WB (toks is).
+Proof.
+  split.
+  - intros H. destruct (load_ok_complete _ _ _ _ _ _ H) as (h & is & SB).
+    exists h, is. split; [exact SB|].
+    apply real_accepts_iff_WB; [eapply scan_wellop; exact SB|].
+    rewrite (real_complete_result _ _ _ SB) in H.
+    destruct (real_load is) as [s|e|]; [exists s; reflexivity|discriminate|discriminate].
+  - intros (h & is & SB & W).
+    apply real_accepts_iff_WB in W as [s L]; [|eapply scan_wellop; exact SB].
+    rewrite (real_complete_result _ _ _ SB), L. reflexivity.
+Qed.
+
+(** ... and then the loader state is the one obtained by feeding the scanned
+    instructions, with the header filled in *)
+Theorem accepted_state bytes h is s :
+  scan_bytes RG bytes = (Some h, is, Ok tt) -> real_load is = LCont s ->
+  load_case bytes = ({| lw_state := with_header h s; lw_panic := false |}, Ok tt).
+Proof.
+  intros SB L. rewrite real_load_feed in L.
+  destruct (real_feed is) as [s1|e|] eqn:F; try discriminate L.
+  destruct (finalize loader_finalize_checks s1) eqn:FN; try discriminate L.
+  injection L as ->.
+  unfold load_case. rewrite (load_complete _ _ _ _ _ _ _ _ _ SB F).
+  unfold fin_result. rewrite FN. reflexivity.
+Qed.
+
+Corollary accepted_state_iff bytes :
+  snd (load_case bytes) = Ok tt ->
+  exists h is s, scan_bytes RG bytes = (Some h, is, Ok tt) /\ WB (toks is) /\ real_load is = LCont s /\
+                 fst (load_case bytes) = {| lw_state := with_header h s; lw_panic := false |}.
+Proof.
+  intros H. apply accepted_iff in H as (h & is & SB & W).
+  pose proof W as W'. apply real_accepts_iff_WB in W' as [s L]; [|eapply scan_wellop; exact SB].
+  exists h, is, s. rewrite (accepted_state _ _ _ _ SB L). auto.
+Qed.
+
+(** ====================================================================== *)
+(** * F4: which error is reported                                            *)
+(** ====================================================================== *)
+
+(** the loader consumed every instruction, then the parser met a malformed
+    instruction: the parser's error is the result (and it is not [Complete]) *)
+Theorem parse_error_surfaces bytes h is e s :
+  scan_bytes RG bytes = (Some h, is, Er e) -> real_feed is = LCont s ->
+  load_case bytes = ({| lw_state := with_header h s; lw_panic := false |}, Er e) /\ e <> PComplete.
+Proof.
+  intros SB F. split.
+  - unfold load_case. apply (load_parse_error _ _ _ _ _ _ _ _ _ _ SB F).
+  - intros ->. exact (scan_bytes_not_complete _ _ _ _ SB).
+Qed.
+
+(** the loader objects at instruction [i] of the stream: its error is the
+    result, whatever comes later in the stream ([post], [r]) - in particular
+    even if a later instruction is malformed; the state is the one before [i] *)
+Theorem loader_error_wins bytes h pre i post r s le :
+  scan_bytes RG bytes = (Some h, pre ++ i :: post, r) ->
+  real_feed pre = LCont s ->
+  consume_instruction op_enum preds loader_arms s i = LErr le ->
+  load_case bytes = ({| lw_state := with_header h s; lw_panic := false |},
+                     Er (PConsumerError (lerr_code le))).
+Proof. intros SB F C. unfold load_case. apply (load_loader_error _ _ _ _ _ _ _ _ _ _ _ _ _ SB F C). Qed.
+
+(** the same, phrased with the bracket automaton of the layout specification *)
+Theorem bracket_error_wins bytes h pre i post r st le :
+  scan_bytes RG bytes = (Some h, pre ++ i :: post, r) ->
+  brk_run (false, false) (toks pre) = inl st ->
+  brk_step st (class_of (i_opcode i)) = inr le ->
+  exists s, real_feed pre = LCont s /\ abs s = st /\
+    load_case bytes = ({| lw_state := with_header h s; lw_panic := false |},
+                       Er (PConsumerError (lerr_code le))).
+Proof.
+  intros SB B E.
+  pose proof (scan_wellop _ _ _ _ SB) as W.
+  pose proof (wellop_app_l _ _ W) as Wp.
+  rewrite <- toks_tagged, <- abs_init in B.
+  apply feed_abs_cont_conv in B as (s & F & A & _); [|exact linv_init|apply toks_ok; exact Wp].
+  rewrite <- (real_feed_is_spec pre Wp) in F.
+  exists s. split; [exact F|]. split; [exact A|].
+  apply (loader_error_wins _ _ _ _ _ _ _ _ SB F).
+  rewrite (interpreter_is_spec op_enum preds loader_arms class_of opcodes arms_agree_prop).
+  - apply abstraction_err_conv. rewrite A. exact E.
+  - apply W. apply in_or_app. right. left. reflexivity.
+Qed.
+
+(** the complete classification of the result of loading from bytes, by the
+    bracket automaton run over the scanned stream: a bracket error anywhere
+    in the stream wins; otherwise a parse error; otherwise the end-of-module
+    checks *)
+Theorem load_case_classification bytes h is r :
+  scan_bytes RG bytes = (Some h, is, r) ->
+  snd (load_case bytes) =
+  match brk_run (false, false) (toks is) with
+  | inr e => Er (PConsumerError (lerr_code e))
+  | inl _ =>
+      match r with
+      | Ok _ => match first_error (toks is) with
+                | None => Ok tt
+                | Some e => Er (PConsumerError (lerr_code e))
+                end
+      | Er e => Er e
+      | Panic p => Panic p
+      end
+  end.
+Proof.
+  intros SB. pose proof (scan_wellop _ _ _ _ SB) as W.
+  unfold load_case. rewrite load_bytes_is_spec. unfold load_spec. rewrite SB.
+  unfold loop_spec.
+  destruct (feed_st op_enum preds loader_arms linit is) as [s o] eqn:FS.
+  pose proof (feed_st_feed op_enum preds loader_arms is linit) as FF. rewrite FS in FF. cbn [snd] in FF.
+  fold (real_feed is) in FF. rewrite (real_feed_is_spec is W) in FF.
+  destruct o as [s1|e|]; cbn [snd].
+  - destruct (feed_st_stop _ _ _ _ _ _ _ FS) as [[E _]|(pre & j & post & _ & _ & _ & NC)];
+      [|exfalso; eapply NC; reflexivity].
+    injection E as ->.
+    symmetry in FF. apply feed_abs_cont in FF. rewrite toks_tagged, abs_init in FF.
+    unfold first_error. rewrite FF.
+    destruct r as [u|e|p]; try reflexivity.
+    unfold fin_result, finalize. rewrite finalize_as_specified, fin_abs.
+    destruct (abs s) as [[|] [|]]; reflexivity.
+  - symmetry in FF. apply feed_abs_err in FF. rewrite toks_tagged, abs_init in FF.
+    rewrite FF. reflexivity.
+  - exfalso. apply (real_feed_no_panic is W). unfold real_feed.
+    rewrite <- feed_st_feed, FS. reflexivity.
+Qed.
+
+(** a complete stream: the result is the first layout error, if any *)
+Corollary complete_stream_result bytes h is :
+  scan_bytes RG bytes = (Some h, is, Ok tt) ->
+  snd (load_case bytes) =
+  match first_error (toks is) with None => Ok tt | Some e => Er (PConsumerError (lerr_code e)) end.
+Proof.
+  intros SB. rewrite (load_case_classification _ _ _ _ SB).
+  unfold first_error. destruct (brk_run (false, false) (toks is)) as [st|e]; reflexivity.
+Qed.
+
+(** a parse error after a stream whose brackets are fine so far is reported
+    as such; a bracket error in the scanned prefix masks it *)
+Corollary parse_error_brackets bytes h is e :
+  scan_bytes RG bytes = (Some h, is, Er e) ->
+  snd (load_case bytes) =
+  (match brk_run (false, false) (toks is) with
+   | inl _ => Er e
+   | inr le => Er (PConsumerError (lerr_code le))
+   end).
+Proof. intros SB. rewrite (load_case_classification _ _ _ _ SB). reflexivity. Qed.
+
+(** ====================================================================== *)
+(** * Non-vacuity: concrete byte strings (little endian)                     *)
+(** ====================================================================== *)
+
+Definition ex_cap : list N := [17;0;2;0; 1;0;0;0].      (* OpCapability Shader *)
+Definition ex_fend : list N := [56;0;1;0].              (* OpFunctionEnd *)
+Definition ex_wc0 : list N := [5;0;0;0].                (* word count 0 *)
+
+Example ex_accept : snd (load_case (hdr_bytes ++ ex_cap)) = Ok tt.
+Proof. vm_compute. reflexivity. Qed.
+
+(** the loader is content, then a malformed instruction: the parse error *)
+Example ex_parse_error : snd (load_case (hdr_bytes ++ ex_cap ++ ex_wc0)) = Er (PWordCountZero 28 2).
+Proof. vm_compute. reflexivity. Qed.
+
+(** the loader objects first (MismatchedFunctionEnd = 102); the malformed
+    instruction behind it is never looked at *)
+Example ex_loader_error_first :
+  snd (load_case (hdr_bytes ++ ex_fend ++ ex_wc0)) = Er (PConsumerError 102) /\
+  snd (scan_bytes RG (hdr_bytes ++ ex_fend ++ ex_wc0)) = Er (PWordCountZero 24 2).
+Proof. vm_compute. split; reflexivity. Qed.
+
+Example ex_header_error : load_case [1;2] = (initial, Er (PHeaderIncomplete (Decoder.StreamExpected 0))).
+Proof. vm_compute. reflexivity. Qed.
+
+(** OBSERVATION (behaviour of the model, as of the source: `if let Ok(word) =
+    self.decoder.word() .. else Complete`): one to three stray bytes after the
+    last instruction end the scan with [Ok tt]; such a module is accepted. *)
+Example ex_trailing_bytes_accepted :
+  snd (load_case (hdr_bytes ++ ex_cap ++ [1;2;3])) = Ok tt /\
+  snd (scan_bytes RG (hdr_bytes ++ ex_cap ++ [1;2;3])) = Ok tt.
+Proof. vm_compute. split; reflexivity. Qed.
+
+Print Assumptions load_bytes_is_spec.
+Print Assumptions feed_set_header.
+Print Assumptions load_header_error.
+Print Assumptions load_loader_error.
+Print Assumptions load_loader_panic.
+Print Assumptions load_complete.
+Print Assumptions load_parse_error.
+Print Assumptions scan_wellop.
+Print Assumptions load_case_never_panics.
+Print Assumptions accepted_iff.
+Print Assumptions accepted_state.
+Print Assumptions accepted_state_iff.
+Print Assumptions parse_error_surfaces.
+Print Assumptions loader_error_wins.
+Print Assumptions bracket_error_wins.
+Print Assumptions load_case_classification.
+Print Assumptions complete_stream_result.
+Print Assumptions parse_error_brackets.
